@@ -67,16 +67,21 @@ def same(a, b):
 class Keys:
     """rank -> (Jsonnet expression, JSON value) from the tables TLC printed."""
 
-    def __init__(self, table):
+    def __init__(self, table, alt=None):
         self.tab = {kind: [(render.value_expr(v), val_py(v)) for v in vs] for kind, vs in table.items()}
+        # second spelling of the same keys (0 / -0, ...), used by elements with an odd tag
+        self.alt = {kind: [(render.value_expr(v), val_py(v)) for v in vs]
+                    for kind, vs in (alt or table).items()}
 
-    def key(self, kind, r):
+    def key(self, kind, r, g=0):
         if kind == "int":
+            if r == 0 and g % 2 == 1:
+                return "(-0)", 0
             return ("(%d)" % r if r < 0 else str(r)), r
-        return self.tab[kind][r - 1]
+        return (self.alt if g % 2 == 1 else self.tab)[kind][r - 1]
 
     def elem(self, kind, kf, r, g):
-        ke, kv = self.key(kind, r)
+        ke, kv = self.key(kind, r, g)
         if kf == "id":
             return ke, kv
         return "[%s, %d]" % (ke, g), [kv, g]
@@ -296,8 +301,9 @@ def run(tier, seed):
         res = tlc[name]
         tlc_must_pass(res, "SortSet laws over all small arrays")
         chk.add_tlc(res, f"all arrays of length <= {ml} over {nk} keys: full laws + emission")
+        alts = list(res.lines("ALTTABLE"))
         for tab in res.lines("TABLE"):
-            keys = Keys(tab)
+            keys = Keys(tab, alts[0] if alts else None)
         if keys is None:
             raise vlib.ToolError("TLC did not print the key tables")
         n_arrays = 0
